@@ -37,11 +37,11 @@ def check_C14(tier, seed):
                   ds_model("hist", 2, 3, A5, ["C", "A2"], ["A"]), ds_model("hist", 2, 3, A5, ["A", "B", "C"], ["A3"]),
                   ds_model("hist", 6, 3, A6, ["B", "A"], ["C", "D", "A2"], simulate="num=40")]
     else:
-        models = [ds_model("pairs", 1, 4, A6), ds_model("hist", 2, 3, A4, ["A", "B"], ["B", "C"]),
-                  ds_model("hist", 2, 3, A6, ["C", "A2", "D"], ["A", "B2"]),
-                  ds_model("hist", 3, 3, ["A", "B", "A2"], ["A", "B"], ["B"]),
+        models = [ds_model("pairs", 1, 3, A6), ds_model("pairs", 1, 4, A4), ds_model("hist", 2, 3, A5, ["A", "B"], ["B", "C"]),
+                  ds_model("hist", 2, 3, A6, ["C", "A2", "D"], ["A", "B2"]), ds_model("hist", 2, 3, A5, ["A", "B", "C"], ["A3"]),
+                  ds_model("hist", 3, 2, ["A", "B", "A2"], ["A"], ["B"], simulate="num=1500"),
                   ds_model("hist", 10, 3, A6, ["B", "A"], ["C", "D", "A2"], simulate="num=400"),
-                  ds_model("hist", 10, 3, A6, [], ["D"], simulate="num=400")]
+                  ds_model("hist", 10, 3, A6 + ["A3"], [], ["D"], simulate="num=400")]
     vectors = []
     for m, res in core.run_models(models, seed=seed, parallel=6):
         out.add_tlc(m, res)
